@@ -5,7 +5,7 @@
 //         with a real message (where the documentation of that call puts it) AND leave the state digest unchanged;
 //         tier B misuse: failure value + unchanged digest; every successful call leaves sf_error == 0;
 //         failed opens return NULL, set the global error, leave /proc/self/fd as it was and leak nothing.
-#include "vf_file.hpp"
+#include "vf_readhist.hpp"
 extern "C" int __lsan_do_recoverable_leak_check (void) ;
 using namespace vf ;
 
@@ -46,9 +46,9 @@ static std::set<int> open_fds ()
 static std::string gen_op (int mode, bool valid_bias)
 {	// classes: r/w valid, rx ry rn (misaligned / wrong mode / negative), s valid seeks, sb sm so, c valid commands, cu cn, t strings, k chunks, o opens
 	static const char *valid [] = { "r", "r", "w", "w", "s", "s", "c", "t" } ;
-	static const char *invalid [] = { "rx", "rn", "wx", "wn", "sb", "sm", "so", "sn", "cu", "cn", "tr", "tn", "tu", "kn", "kf", "o0", "o1", "o2", "o3", "o4", "o5", "o6", "o7", "o8", "o9", "rm", "wm" } ;
+	static const char *invalid [] = { "rx", "rn", "wx", "wn", "sb", "sm", "so", "sn", "cu", "cn", "tr", "tn", "tu", "te", "te", "kn", "kf", "o0", "o1", "o2", "o3", "o4", "o5", "o6", "o7", "o8", "o9", "rm", "wm" } ;
 	std::string s ;
-	if (*rangeOf<int> (0, 9) < (valid_bias ? 6 : 4)) s = valid [*rangeOf<int> (0, 7)] ; else s = invalid [*rangeOf<int> (0, 26)] ;
+	if (*rangeOf<int> (0, 9) < (valid_bias ? 6 : 4)) s = valid [*rangeOf<int> (0, 7)] ; else s = invalid [*rangeOf<int> (0, 28)] ;
 	s += ":" ; s += "sifd" [*rangeOf<int> (0, 3)] ; s += *rangeOf<int> (0, 1) ? 'i' : 'f' ; s += std::to_string (*rc::gen::element (1, 2, 7, 64, 300)) ;
 	(void) mode ;
 	return s ;
@@ -110,6 +110,8 @@ static Result run_case (const Case &c)
 	else { SF_INFO ri ; memset (&ri, 0, sizeof (ri)) ; if ((rep.format & SF_FORMAT_TYPEMASK) == SF_FORMAT_RAW) { ri.format = rep.format ; ri.channels = ch ; ri.samplerate = 8000 ; } f = open_mem (mf, mode, &ri) ; }
 	if (!f) return fail ("open_failed", sf_strerror (nullptr)) ;
 	bool vox = (rep.format & SF_FORMAT_SUBMASK) == SF_FORMAT_VOX_ADPCM ;
+	// reference decode of the pre-populated file (valid reads are compared with it until the first valid write)
+	MemFile pristine ; pristine.data = mf.data ; RefStreams ref ; bool clean = mode != SFM_WRITE ; long long rpos = 0 ;
 	bool have_written = false ; int invalid_then_valid = 0 ; bool last_invalid = false ; int opno = 0 ;
 	for (auto &opf : ops)
 	{	opno ++ ; auto colon = opf.find (':') ; if (colon == std::string::npos) continue ;
@@ -132,6 +134,13 @@ static Result run_case (const Case &c)
 			expect_invalid = mode == SFM_WRITE || op == "rx" || op == "rn" ; tierA = true ;
 			failed_value = got == 0 ;
 			if (!expect_invalid && (got < 0 || got > cnt)) return bail ("read_count_out_of_range", std::to_string ((long long) got)) ;
+			if (!expect_invalid && clean)
+			{	std::string e ; if (!build_ref (pristine, s, T, ref, e)) return bail ("reference_failed", e) ;
+				long long F = std::min<long long> (ref.F, ref.delivered [T]) ; long long want = items ? cnt / ch : cnt ; long long expect = rpos >= F ? 0 : std::min (want, F - rpos) ; long long gfr = items ? got / ch : got ;
+				if (gfr != expect) return bail ("valid_read_count", "returned " + std::to_string (gfr) + " frames, expected " + std::to_string (expect) + " at position " + std::to_string (rpos)) ;
+				if (gfr > 0 && memcmp (b.p, ref.data [T].data () + (size_t) rpos * ch * ts, (size_t) gfr * ch * ts) != 0) return bail ("valid_read_data", "data differs from the sequential decode at position " + std::to_string (rpos)) ;
+				rpos += gfr ;
+			}
 			r.classes.push_back (expect_invalid ? "invalid:read" : "valid:read") ;
 		}
 		else if (op == "w" || op == "wx" || op == "wn" || op == "wm")
@@ -143,7 +152,7 @@ static Result run_case (const Case &c)
 			sf_count_t got = items ? sf_write_t (f, T, b.p, cnt) : sf_writef_t (f, T, b.p, cnt) ;
 			expect_invalid = mode == SFM_READ || op == "wx" || op == "wn" ; tierA = true ;
 			failed_value = got == 0 ;
-			if (!expect_invalid) { if (got != cnt) return bail ("valid_write_short", std::to_string ((long long) got) + " err=" + sf_err_text (f)) ; have_written = true ; }
+			if (!expect_invalid) { if (got != cnt) return bail ("valid_write_short", std::to_string ((long long) got) + " err=" + sf_err_text (f)) ; have_written = true ; clean = false ; }
 			r.classes.push_back (expect_invalid ? "invalid:write" : "valid:write") ;
 		}
 		else if (op [0] == 's')
@@ -157,6 +166,7 @@ static Result run_case (const Case &c)
 				got = sf_seek (f, tgt, SEEK_SET) ;
 				if (got == -1) { expect_invalid = true ; r.classes.push_back ("seek:refused") ; }	// codec without seek support: allowed, but must then behave like a failed call
 				else if (got != tgt) return bail ("valid_seek_result", std::to_string ((long long) got)) ;
+				else rpos = tgt ;
 			}
 			tierA = true ; failed_value = got == -1 ;
 			r.classes.push_back (expect_invalid ? "invalid:seek" : "valid:seek") ;
@@ -171,6 +181,12 @@ static Result run_case (const Case &c)
 			if (op == "tr") { if (mode != SFM_READ) continue ; rc = sf_set_string (f, SF_STR_TITLE, "x") ; expect_invalid = true ; }
 			else if (op == "tn") { if (mode == SFM_READ) continue ; rc = sf_set_string (f, SF_STR_TITLE, nullptr) ; expect_invalid = true ; }
 			else if (op == "tu") { if (mode == SFM_READ) continue ; rc = sf_set_string (f, 0x99, "x") ; expect_invalid = true ; }
+			else if (op == "te")
+			{	// empty string for a type that may already be set: if the call fails, the stored strings must survive
+				if (mode == SFM_READ || !rep.strings || have_written) continue ;
+				rc = sf_set_string (f, SF_STR_ARTIST, "") ; if (rc == 0) { d0 = digest (f, mf) ; r.classes.push_back ("valid:set_string") ; last_invalid = false ; continue ; }
+				expect_invalid = true ;
+			}
 			else
 			{	if (mode == SFM_READ || !rep.strings || have_written) continue ;
 				rc = sf_set_string (f, SF_STR_ARTIST, "an artist") ; if (rc != 0) return bail ("valid_set_string_failed", std::to_string (rc)) ;
